@@ -47,3 +47,21 @@ void h5_warm() {
     hid_t t = H5Tcopy(H5T_C_S1); if (t >= 0) H5Tclose(t);
 }
 }
+
+// ---- exception tracing (development / replay aid): NIXSIM_TRACE=1 prints every exception thrown by nix code
+#include <typeinfo>
+#include <exception>
+#include <cstdio>
+#include <cstdlib>
+extern "C" void __real___cxa_throw(void *thrown, std::type_info *tinfo, void (*dest)(void *)) __attribute__((noreturn));
+namespace sim { int g_trace = -1; }
+extern "C" void __wrap___cxa_throw(void *thrown, std::type_info *tinfo, void (*dest)(void *)) {
+    if (sim::g_trace < 0) sim::g_trace = getenv("NIXSIM_TRACE") ? 1 : 0;
+    if (sim::g_trace) {
+        void *adj = thrown;
+        const char *what = "";
+        if (typeid(std::exception).__do_catch(tinfo, &adj, 1)) what = static_cast<std::exception *>(adj)->what();
+        fprintf(stdout, "    throw %s: %s\n", tinfo->name(), what);
+    }
+    __real___cxa_throw(thrown, tinfo, dest);
+}
